@@ -284,6 +284,11 @@ func (s *Stream) startConsume(consumer Consumer, packetType PacketType, extra st
 	cs.Add(c)
 
 	go c.consume()
+
+	// 流可能在注册之前或同时已被关闭，关闭流程不会再扫描到该消费者，这里必须自行关闭
+	if atomic.LoadInt32(&s.status) != StreamOK {
+		s.StopConsume(c.cid)
+	}
 	return c.cid
 }
 
